@@ -218,7 +218,7 @@ def _rand_tree(rnd, depth):
 
 def history_random(seed, tier):
     rnd = random.Random(4242 + seed)
-    n_hist, depth = (60, 5) if tier == 'quick' else (600, 6)
+    n_hist, depth = (60, 5) if tier == 'quick' else (1200, 6)
     noaff = {'m': [], 'b': [], 'q': 1}
     scripts = []
     for _ in range(n_hist):
@@ -281,7 +281,7 @@ def deep_random(kind):
     """kind: reduce | compose | arith | eliminate | regions. Every scenario is a tree (pair) with up to 15 decisions."""
     def gen(seed, tier):
         rnd = random.Random(hash(kind) % 100000 + 7 * seed) if False else random.Random(sum(map(ord, kind)) * 1000 + seed)
-        n = (60 if kind == 'elimreduce' else 24) if tier == 'quick' else 400
+        n = (60 if kind == 'elimreduce' else 24) if tier == 'quick' else 1500
         out = []
         for _ in range(n):
             if kind == 'reduce':
@@ -358,7 +358,7 @@ H_ARITH2 = [('D', _aff([[1, 0]], [0]), [('L', _aff([[1, 0], [0, 1]], [0, 1])), (
 
 def history2d_random(seed, tier):
     rnd = random.Random(777 + seed)
-    n_hist, depth = (40, 4) if tier == 'quick' else (500, 6)
+    n_hist, depth = (40, 4) if tier == 'quick' else (1200, 6)
     scripts = []
     for _ in range(n_hist):
         steps = []
